@@ -12,8 +12,12 @@ package main
 
 import (
 	"bytes"
+	"context"
 	"database/sql"
 	"strings"
+
+	"ariga.io/atlas/sql/sqlite"
+	"ariga.io/atlas/sql/verifx"
 )
 
 type loopResult struct {
@@ -21,6 +25,8 @@ type loopResult struct {
 	hcl                                                []byte
 	hclMarshalErr, hclEvalErr, hclDiffErr, hclApplyErr error
 	hclFwd, hclBack, hclDbFwd, hclDbBack               []string
+	devErr                                             error
+	devFwd, devBack                                    []string
 	sql                                                string
 	sqlPlanErr, sqlExecErr, sqlDiffErr                 error
 	sqlFwd, sqlBack                                    []string
@@ -60,6 +66,22 @@ func loopOnDB(db0 *sql.DB, r *loopResult) {
 		r.hclEvalErr = err
 		if err == nil {
 			r.hclFwd, r.hclBack, r.hclDiffErr = diffBoth(drv, s0, s1)
+			// the evaluated schema normalised on a dev database (sql/internal/sqlx/dev.go: the path of
+			// `--dev-url` for the drivers that implement schema.Normalizer; through the verif hook here)
+			if s1n, err := hclImport(r.hcl); err == nil {
+				dev := freshDB()
+				if ddrv, err := sqlite.Open(dev); err == nil {
+					s1n.Name = "main"
+					ns, err := verifx.NormalizeSchema(context.Background(), ddrv, s1n)
+					if err != nil {
+						r.devErr = err
+					} else {
+						s0n, _, _ := inspectDB(db0)
+						r.devFwd, r.devBack, _ = diffBoth(drv, s0n, ns)
+					}
+				}
+				dev.Close()
+			}
 			// apply to a fresh engine
 			db1 := freshDB()
 			s1b, _ := hclImport(r.hcl)
@@ -170,6 +192,11 @@ func (r *loopResult) verdict() []viol {
 	default:
 		if len(r.hclFwd)+len(r.hclBack) > 0 {
 			add("hcl-diff", "S0->S1 "+joined(r.hclFwd)+" ; S1->S0 "+joined(r.hclBack))
+		}
+		if r.devErr != nil {
+			add("hcl-apply-error", "dev: "+errStr(r.devErr))
+		} else if len(r.devFwd)+len(r.devBack) > 0 {
+			add("hcl-db-diff", "dev-normalised: db0->dev "+joined(r.devFwd)+" ; dev->db0 "+joined(r.devBack))
 		}
 		if r.hclApplyErr != nil {
 			add("hcl-apply-error", errStr(r.hclApplyErr))
